@@ -109,3 +109,48 @@ func VerifC14HoldDB(s *Session) (release func()) {
 
 // VerifC14Trackers returns the tracker tiers of the live torrent (what Magnet() / Torrent() would export).
 func VerifC14Trackers(t *Torrent) [][]string { return t.torrent.getTieredTrackers() }
+
+// VerifC14PlantKey puts a plain KEY (not a bucket) named id into the torrents bucket of the open database: the next
+// resumer.Write(id) fails inside its transaction (CreateBucketIfNotExists: incompatible value) - a database fault at
+// exactly the resume-write step of an add.  It refuses (false) if a record or key of that name exists.
+func VerifC14PlantKey(s *Session, id string) bool {
+	ok := false
+	_ = s.db.Update(func(tx *bbolt.Tx) error {
+		tb := tx.Bucket(torrentsBucket)
+		if tb.Bucket([]byte(id)) != nil || tb.Get([]byte(id)) != nil {
+			return nil
+		}
+		ok = tb.Put([]byte(id), []byte("verif-planted")) == nil
+		return nil
+	})
+	return ok
+}
+
+// VerifC14UnplantKey removes a planted plain key again.
+func VerifC14UnplantKey(s *Session, id string) {
+	_ = s.db.Update(func(tx *bbolt.Tx) error {
+		tb := tx.Bucket(torrentsBucket)
+		if tb.Bucket([]byte(id)) == nil && tb.Get([]byte(id)) != nil {
+			return tb.Delete([]byte(id))
+		}
+		return nil
+	})
+}
+
+// VerifC14BreakRecord replaces the record (bucket) of id by a plain key: the DeleteBucket of a following RemoveTorrent(id)
+// fails (incompatible value) - a database fault at exactly the record-delete step of a remove.
+func VerifC14BreakRecord(s *Session, id string) bool {
+	ok := false
+	_ = s.db.Update(func(tx *bbolt.Tx) error {
+		tb := tx.Bucket(torrentsBucket)
+		if tb.Bucket([]byte(id)) == nil {
+			return nil
+		}
+		if tb.DeleteBucket([]byte(id)) != nil {
+			return nil
+		}
+		ok = tb.Put([]byte(id), []byte("verif-planted")) == nil
+		return nil
+	})
+	return ok
+}
